@@ -196,15 +196,18 @@ def run_world(W: int, fn, seed: int = 0, timeout: float = 60.0, _retry: bool = T
     threads = [threading.Thread(target=target, args=(r,), daemon=True) for r in range(W)]
     for t in threads:
         t.start()
+    import time as _time
+    deadline = _time.time() + timeout          # one limit for the whole world, not one per rank
     for t in threads:
-        t.join(timeout)
+        t.join(max(0.0, deadline - _time.time()))
     if any(t.is_alive() for t in threads):
         with world.lock:
             if world.verdict is None:
                 world.verdict = ("watchdog", {})
             world.lock.notify_all()
+        deadline = _time.time() + 5
         for t in threads:
-            t.join(5)
+            t.join(max(0.0, deadline - _time.time()))
     _current_world = None
     if world.verdict is not None and world.verdict[0] == "watchdog" and _retry:
         return run_world(W, fn, seed, timeout=max(300.0, 5 * timeout), _retry=False)
